@@ -223,6 +223,8 @@ func (k Keeper) SetCollectorLookupTable(ctx sdk.Context, records types.Collector
 		LotSize:          records.LotSize,
 		BidFactor:        records.BidFactor,
 		DebtLotSize:      records.DebtLotSize,
+		BlockHeight:      records.BlockHeight,
+		BlockTime:        records.BlockTime,
 	}
 
 	var (
